@@ -22,6 +22,17 @@ __all__ = ['PolygonPixelRegion', 'RegularPolygonPixelRegion',
            'PolygonSkyRegion']
 
 
+class _NumberOfVertices(PositiveScalar):
+    """
+    Descriptor class to check that value is a scalar number >= 3.
+    """
+
+    def _validate(self, value):
+        super()._validate(value)
+        if value < 3:
+            raise ValueError(f'{self.name!r} must be >= 3')
+
+
 class PolygonPixelRegion(PixelRegion):
     """
     A polygon in pixel coordinates.
@@ -286,7 +297,7 @@ class RegularPolygonPixelRegion(PolygonPixelRegion):
 
     _params = ('center', 'nvertices', 'radius', 'angle')
     center = ScalarPixCoord('The center pixel position as a |PixCoord|.')
-    nvertices = PositiveScalar('The number of polygon vertices.')
+    nvertices = _NumberOfVertices('The number of polygon vertices.')
     radius = PositiveScalar('The distance from the center to any vertex in '
                             'pixels as a float.')
     angle = ScalarAngle('The rotation angle measured anti-clockwise as a '
